@@ -470,7 +470,7 @@ def gen_conn_case(rng, tier):
     return {"max": maxsize, "events": events}
 
 def exhaustive_cases():
-    """every chunking (2^(n-1) compositions) of some short streams"""
+    """every chunking (all subsets of the first min(n-1, 10) cut positions) of some short streams"""
     H = bytes.fromhex
     streams = [
         (DEFAULT_MAX, H("00e1") + H("1101aa") + H("00e2")),                 # CSM, GET with token aa, Ping
@@ -484,9 +484,9 @@ def exhaustive_cases():
         (DEFAULT_MAX, H("00e1") + H("2001b1ff") + H("0001")),               # invalid UTF-8 in Uri-Path
     ]
     for maxsize, raw in streams:
-        n = len(raw)
-        for mask in range(2 ** (n - 1)):
-            cuts = [i + 1 for i in range(n - 1) if mask >> i & 1]
+        n = len(raw); k = min(n - 1, 10)       # every subset of the first 10 cut positions (the rest arrives in one piece)
+        for mask in range(2 ** k):
+            cuts = [i + 1 for i in range(k) if mask >> i & 1]
             yield "conn", {"max": maxsize, "events": [["data", c] for c in cut_segs([["lit", list(raw)]], cuts)], "bytewise_limit": 0}
 
 def sendable(n, v):
@@ -549,8 +549,8 @@ class C15(fw.Property):
     rule = ("conn: structured streams (CSM, requests, responses, empty, all signalling codes incl. unknown, options of every format, lengths at 12/13/14/268/269/270 and "
             "occasionally 65804/65805/65806, local maximum 20/40/300/1152/1MiB with frames at max and max+1) with a malformed/oversized item at a random position in ~1/3 "
             "of the cases, byte mutations of such streams, and random byte strings; chunked whole / per frame / byte-wise / around frame boundaries / random / fixed stride; "
-            "outgoing messages and connection loss interleaved; each data-only history is additionally run unchunked and (<=160 bytes) byte by byte. thorough adds all 2^(n-1) "
-            "chunkings of nine short streams. kernels: function-level cases. Non-trivial conn case = at least one message dispatched or signalling reaction observed, "
+            "outgoing messages and connection loss interleaved; each data-only history is additionally run unchunked and (<=160 bytes) byte by byte. thorough adds every chunking (all subsets of the first 10 cut positions) "
+            "of nine short streams. kernels: function-level cases. Non-trivial conn case = at least one message dispatched or signalling reaction observed, "
             "distinct by the normalised trace; kernels distinct by input.")
     trusted_base = ["translator translate/py2v.py + Lib/Py.v prelude (validated by the kernels stream on every run)",
                     "hand-written Model/C15.v (validated by the conn stream: full traces, spool, settings, close state)",
